@@ -394,8 +394,64 @@ def assigned_text(fn, name):
             and isinstance(n.targets[0], ast.Name) and n.targets[0].id == name]
 
 
+def resolved_text(fn, node_or_name, depth=6):
+    """source text of an expression (or of the value assigned to a local name) with every local name that is assigned exactly once
+    (by a plain `name = expr`) replaced by its expression, recursively: robust against renaming / introducing local variables"""
+    single = {}
+    counts = {}
+    for n in ast.walk(fn):
+        if isinstance(n, ast.Assign) and len(n.targets) == 1 and isinstance(n.targets[0], ast.Name):
+            counts[n.targets[0].id] = counts.get(n.targets[0].id, 0) + 1
+            single[n.targets[0].id] = n.value
+        elif isinstance(n, (ast.AugAssign, ast.For, ast.With)) or (isinstance(n, ast.Assign) and not isinstance(n.targets[0], ast.Name)):
+            for t in ast.walk(n.target if hasattr(n, 'target') else n.targets[0] if isinstance(n, ast.Assign) else n):
+                if isinstance(t, ast.Name) and isinstance(getattr(t, 'ctx', None), ast.Store):
+                    counts[t.id] = counts.get(t.id, 0) + 2
+    single = {k: v for k, v in single.items() if counts.get(k) == 1}
+
+    class Sub(ast.NodeTransformer):
+        def __init__(self, d):
+            self.d = d
+
+        def visit_Name(self, node):
+            if isinstance(node.ctx, ast.Load) and node.id in single and self.d > 0:
+                import copy
+                return Sub(self.d - 1).visit(copy.deepcopy(single[node.id]))
+            return node
+
+    import copy
+    if isinstance(node_or_name, str):
+        if node_or_name not in single:
+            return None
+        node = copy.deepcopy(single[node_or_name])
+    else:
+        node = copy.deepcopy(node_or_name)
+    return ast.unparse(Sub(depth).visit(node))
+
+
+# flags that only record, by comparing source text, how the ARRAY code around a slice is written.  They carry no proof content (the array
+# code is tied to the model by the correspondence checks), so they are not obligations: when one changes the check runs its failing-input
+# search with the enlarged budget and reports the change as a note, not as a violation.
+NOTE_FLAGS = {'ratesCountPerPart', 'windowFromAttemptFrequency', 'splitPartsAreSlices', 'binsAreArange', 'countsAreHistogram', 'edgesAreUniformDropFirst',
+              'indicesAreDigitize', 'countsAreUniqueRows', 'samplesAreAllPositions', 'stepsInOrder', 'centredOnSite', 'directionsFromWrappedPositions',
+              'trackIsUnwrappedCartesian', 'autocorrelationZeroPaddedToTwiceFrames', 'windowCountsAreFramesMinusLag', 'squaredLengthRecursion', 'returnsMsd',
+              'limitsDefaultToUnbounded', 'graphInputsFromThisAnalysis'}
+
+
 def flag(name, value, doc):
-    return f'/-- {doc} -/\ndef {name} : Bool := {"true" if value else "false"}\n'
+    kind = 'STRUCTURE NOTE (search trigger, not an obligation): ' if name in NOTE_FLAGS else ''
+    return f'/-- {kind}{doc} -/\ndef {name} : Bool := {"true" if value else "false"}\n'
+
+
+def changed_notes(slice_names):
+    """names of structure notes that are `false` in the generated files of these slices"""
+    out = []
+    for nm in slice_names:
+        f = Path(__file__).resolve().parents[1] / 'lean' / 'GGen' / f'{nm}.lean'
+        if f.exists():
+            import re as _re
+            out += [m.group(1) for m in _re.finditer(r'^def (\w+) : Bool := false$', f.read_text(), _re.M) if m.group(1) in NOTE_FLAGS]
+    return out
 
 
 def int_expr(node, names):
@@ -428,8 +484,7 @@ def slice_c10b():
            f'def wrappedSite ({" ".join(xyz)} {" ".join(dims)} : Int) : Int × Int × Int :=\n  ({", ".join(comps)})\n')
     b, _ = straight_line('path.py', 'Pathway.frac_sites', 'fracSite', ['w', 'dims'], opaque={'np.array(sites)': 'w', 'np.array(self.dims)': 'dims'},
                          skip={'not self.dims'}, doc='path.py Pathway.frac_sites, per axis: `w` = wrapped voxel coordinate')
-    srcs = assigned_text(find_function(tree, 'Pathway.frac_sites'), 'sites')
-    f = flag('fracSitesUseWrapped', srcs == ['self.wrapped_sites()'], 'frac_sites starts from `self.wrapped_sites()`')
+    f = flag('fracSitesUseWrapped', resolved_text(find_function(tree, 'Pathway.frac_sites'), 'sites') == 'self.wrapped_sites()', 'frac_sites starts from `self.wrapped_sites()`')
     return out + '\n' + b + '\n' + f
 
 
@@ -464,13 +519,14 @@ def slice_c05b():
     if isinstance(ret, ast.Return) and isinstance(ret.value, ast.ListComp) and isinstance(ret.value.elt, ast.Call) and ast.unparse(ret.value.elt.func) == 'Jumps':
         kws = {k.arg: ast.unparse(k.value) for k in ret.value.elt.keywords}
         ok = (kws == {'conversion_method': 'self.conversion_method', 'minimal_residence': 'self.minimal_residence'}
-              and [ast.unparse(a) for a in ret.value.elt.args] == ['part'] and assigned_text(fs, 'parts') == ['self.transitions.split(n_parts)'])
+              and [ast.unparse(a) for a in ret.value.elt.args] == [ast.unparse(ret.value.generators[0].target)]
+              and len(ret.value.generators) == 1 and not ret.value.generators[0].ifs
+              and resolved_text(fs, ret.value.generators[0].iter) == 'self.transitions.split(n_parts)')
     out += '\n' + flag('splitForwardsSettings', ok, 'Jumps.split builds `Jumps(part, conversion_method=self.conversion_method, minimal_residence=self.minimal_residence)` for the parts of `self.transitions.split(n_parts)`')
     # provenance of the distances in jump_diffusivity
     fj = find_function(tree, 'Jumps.jump_diffusivity')
     out += '\n' + flag('jumpDistancesInSimulationCell',
-                       assigned_text(fj, 'lattice') == ['self.trajectory.get_lattice()'] and assigned_text(fj, 'sites') == ['self.sites']
-                       and assigned_text(fj, 'pdist') == ['lattice.get_all_distances(sites.frac_coords, sites.frac_coords)'],
+                       resolved_text(fj, 'pdist') == 'self.trajectory.get_lattice().get_all_distances(self.sites.frac_coords, self.sites.frac_coords)',
                        'jump_diffusivity measures site distances with the TRAJECTORY\'s lattice (`get_all_distances` = minimum image)')
     return out
 
@@ -479,8 +535,7 @@ def slice_c02b():
     tree = ast.parse((REPO_SRC / 'transitions.py').read_text())
     fn = find_function(tree, '_compute_site_radius')
     return flag('siteSeparationsInSimulationCell',
-                assigned_text(fn, 'lattice') == ['trajectory.get_lattice()'] and assigned_text(fn, 'site_coords') == ['sites.frac_coords']
-                and assigned_text(fn, 'pdist') == ['lattice.get_all_distances(site_coords, site_coords)'],
+                resolved_text(fn, 'pdist') == 'trajectory.get_lattice().get_all_distances(sites.frac_coords, sites.frac_coords)',
                 '_compute_site_radius measures site separations with the TRAJECTORY\'s lattice (`get_all_distances` = minimum image)')
 
 
@@ -499,10 +554,11 @@ def slice_c12():
     kws = {k.arg: ast.unparse(k.value) for k in ret.keywords}
     out = ('/-- jumps.py Jumps.collective: the correlation window in time steps -/\n'
            f'def maxSteps (attempt_freq time_step : Rat) : Int :=\n  {ms}\n\n')
-    out += flag('collectiveUsesSimulationCell', kws.get('lattice') == 'trajectory.get_lattice()' and assigned_text(fn, 'trajectory') == ['self.trajectory'],
+    rk = {k.arg: resolved_text(fn, k.value) for k in ret.keywords}
+    out += flag('collectiveUsesSimulationCell', rk.get('lattice') == 'self.trajectory.get_lattice()',
                 'the Collective analysis is given the TRAJECTORY\'s lattice for site distances')
-    out += '\n' + flag('collectiveForwardsArguments', kws.get('max_steps') == 'max_steps' and kws.get('max_dist') == 'max_dist' and kws.get('jumps') == 'self'
-                       and kws.get('sites') == 'sites' and assigned_text(fn, 'sites') == ['self.transitions.sites'],
+    out += '\n' + flag('collectiveForwardsArguments', kws.get('max_steps') == 'max_steps' and rk.get('max_dist') == 'max_dist' and rk.get('jumps') == 'self'
+                       and rk.get('sites') == 'self.transitions.sites',
                        'window, cut-off, jumps and sites are passed on unchanged')
     inputs_ok = (assigned_text(fn, 'time_step') == ['trajectory.time_step'])
     out += '\n' + flag('windowFromAttemptFrequency', inputs_ok and any('attempt_frequency()' in ast.unparse(n.value) for n in ast.walk(fn)
